@@ -244,7 +244,7 @@ prop("C07", "exploration",
      {"quick": 2500, "thorough": 30000},
      ["id and derivation counters may advance on a refused call (they reserve nothing)",
       "a validly counter-signed reply to an own slate is C02's domain and is not sent here"],
-     required_hist=["HonestReceive:ok", "RepeatReceive:refused", "HostileReceive:ok", "HostileReceive:refused", "BuildCoinbase:ok", "HostileFinalize:refused", "received-payment-put-into-reverted-state"])
+     required_hist=["HonestReceive:ok", "RepeatReceive:refused", "HostileReceive:ok", "HostileReceive:refused", "BuildCoinbase:ok", "HostileFinalize:refused", "hostile-finalize:fabricated-reply-to-the-late-locked-send(throwaway-key)", "received-payment-put-into-reverted-state"])
 
 prop("C13", "exploration",
      "session histories on OwnerAPIHandlerV3::post (in-process hyper requests): plaintext and encrypted (re-)key exchanges interleaved with requests; a client "
